@@ -348,6 +348,8 @@ GLUE_COMMON = """
     fn glue_setup<'a>(log: &'a Log, n: usize, c: usize, owner: [u8; MAXN], cut: usize) -> (ModelIter<'a>, [u8; MAXN], Cl<'a>, Params) {
         let (mut it, data) = multi_worker_iter(log, n, c, owner, 2);
         it.cut = cut;
+        // the same shapes are run with a source of unknown length (try_get_len() == None): harness name suffix `_u`
+        it.known_len = unsafe { UNKNOWN_LEN } != UNKNOWN_YES;
         (it, data, Cl::any(log), par_params(2, c))
     }
 
@@ -564,7 +566,10 @@ def gen_glue(kernel, body):
                 args += ', Op::Xor'
             if fam == 'find':
                 args += ', %d' % cut
-            body.append('    #[kani::proof]\n    #[kani::unwind(%d)]\n%s    fn %s() { check_glue(%s); }\n' % (unwind, STUBS_ALL, name, args))
+            body.append('    #[kani::proof]\n    #[kani::unwind(%d)]\n%s    fn %s() { unsafe { UNKNOWN_LEN = UNKNOWN_NO }; check_glue(%s); }\n' % (unwind, STUBS_ALL, name, args))
+            first_quick = (n, c, owner, tier) == [sh for sh in shapes if sh[3] == 'quick'][0] and (cut is None or cut == nb - 1)
+            if first_quick:
+                body.append('    #[kani::proof]\n    #[kani::unwind(%d)]\n%s    fn %s_u() { unsafe { UNKNOWN_LEN = UNKNOWN_YES }; check_glue(%s); }\n' % (unwind, STUBS_ALL, name, args))
             props = list(FAM_PROPS[fam])
             if fam == 'col':
                 props += ['C06']
@@ -576,6 +581,12 @@ def gen_glue(kernel, body):
                 covers = 1 if False else None  # `m == 0` is infeasible when blocks are withheld; checked loosely
             elif n < 2 and fam != 'find':
                 covers = None
+            if first_quick:
+                HARNESSES[name + '_u'] = dict(kernel=kernel, family='glue_' + fam, props=props, tier=t2, bounded=True,
+                                              path='core::%s::vk::%s_u' % (kernel, name),
+                                              shape=dict(n=n, chunk=c, owner=list(owner), workers=2, frontier=cut, unknown_len=True),
+                                              covers_expected=covers, covers_min=1 if covers is None else None,
+                                              bound='n=%d elements of a source of UNKNOWN length, chunk size %d, 2 workers, block->worker table %s; symbolic data and closure tables' % (n, c, list(owner)))
             HARNESSES[name] = dict(kernel=kernel, family='glue_' + fam, props=props, tier=t2, bounded=True,
                                    path='core::%s::vk::%s' % (kernel, name),
                                    shape=dict(n=n, chunk=c, owner=list(owner), workers=2, frontier=cut),
@@ -822,9 +833,10 @@ QUICK_API = {
     ('empty', 'count'), ('map_fil', 'count'), ('fil', 'for_each'),
     ('map_fil', 'reduce'), ('fil', 'fold'), ('map', 'min_by_key'), ('map_fil', 'sum'),
     ('map_fil', 'find'), ('fil', 'first'), ('map', 'any'), ('fmap_fil', 'all'), ('empty', 'find'), ('fil_fil', 'find'),
+    ('map_fil_fil', 'count'), ('fil_fil', 'count'), ('fmap_fil_fil', 'count'), ('flat_fil_fil', 'count'), ('fil_map', 'count'), ('map_fil_map', 'count'),
 }
 # sequential-mode only additions (cheap there, intractable with two workers + merge contract)
-QUICK_API_SEQ = {('fil_map', 'collect_vec'), ('map_fil_fil', 'collect_vec'), ('map_fil_map', 'collect_vec'), ('fmap_fil', 'count'), ('fmap_fil', 'max')}
+QUICK_API_SEQ = {('flat', 'reduce'), ('flat_fil_fil', 'count'), ('fil_map', 'collect_vec'), ('map_fil_fil', 'collect_vec'), ('map_fil_map', 'collect_vec'), ('fmap_fil', 'count'), ('fmap_fil', 'max')}
 # combinations whose CBMC run exceeds 20 GB / 10 min even on 2 elements: never scheduled, reported as not covered
 INTRACTABLE = {
     ('par2', 'fil_map', 'collect_vec'), ('par2', 'map_fil_fil', 'collect_vec'), ('par2', 'map_fil_map', 'collect_vec'),
@@ -855,7 +867,8 @@ def gen_api():
                 for (n, c, owner, tier) in shapes:
                     if (mode, chain, term) in INTRACTABLE:
                         continue
-                    if not (term == 'collect_vec' or chain in BASE_CHAINS):
+                    # composed-closure chains: collect_vec (order) and count (cheapest must-visit terminal, for the call logs)
+                    if not (term in ('collect_vec', 'count') or chain in BASE_CHAINS):
                         continue
                     if term.startswith('into_'):
                         tier = 'quick' if (chain, term) in (('map', 'into_vec'), ('map_fil', 'into_vec'), ('map', 'into_split_full')) else 'thorough'
@@ -884,6 +897,10 @@ def gen_api():
                     body.append('    let cl = Cl::any(&log);')
                     body.append('    let c2 = cl.with_log(&log2);')
                     body.append('    let params = %s;' % params)
+                    if not par:
+                        # order-sensitive: in sequential mode reduce/fold must be the left-to-right fold (C09)
+                        pe = pe.replace('Op::Xor', 'Op::Sub')
+                        se = se.replace('Op::Xor', 'Op::Sub')
                     body.append('    let got = %s;' % pe.replace('{P}', 'source(it, params)' + pc))
                     body.append('    let exp = %s;' % se.replace('{S}', 'src_iter(data, %d)' % n + sc))
                     body.append(CMP[cmpk].replace('{PR}', pr).replace('\n        ', '\n    '))
